@@ -402,6 +402,7 @@ func Round3Generic(c *Ctx, id string) {
 		rewriterRound3(c)
 		c20Round3(c, true)
 	case "C11":
+		wireSwitchHasDefault(c)
 		wsRejectedOperationAnswered(c)
 		ctxParamUsed(c, "ctx-param-used", pkgTransport)
 		errorListLenZeroOnly(c, "error-list-len-zero-only", false, pkgTransport, pkgExecutor, pkgGraphql)
@@ -528,6 +529,7 @@ func Round3Generic(c *Ctx, id string) {
 		formBodiesQueryUnescaped(c)
 		rawParamsJSONNames(c)
 	case "C10":
+		wireSwitchHasDefault(c)
 		loopOuterStateEscapes(c, "loop-outer-state-escapes", pkgTransport, pkgGraphql)
 		c11Tables(c)
 		c11CloseOnce(c)
